@@ -334,7 +334,21 @@ fn strategy_embed(_t: Tier) -> BoxedStrategy<EmbedCase> {
             // the ESOP model grows as 3^n with parity constraints: embed into at most 5 variables
             let max_n = if kind == Kind::Esop { 5usize } else { 8usize };
             let sizes = prop_oneof![2 => (k + 1)..=max_n, 1 => Just(max_n)];
-            (vec(arb_tt(k), outs), sizes, any::<u64>(), any::<bool>()).prop_map(move |(small, n, seed, top)| {
+            // XOR-rich functions (what distinguishes SOPES/ESOP from SOP): affine functions of a random
+            // subset of the variables, possibly ANDed / ORed with one more literal
+            let affine = (1u32..(1u32 << k), any::<bool>(), 0u8..3, 0..k, any::<bool>()).prop_map(move |(vars, neg, mode, lv, lp)| {
+                Tt::from_fn(k, |m| {
+                    let x = ((m as u32 & vars).count_ones() & 1 != 0) ^ neg;
+                    let l = ((m >> lv) & 1 != 0) == lp;
+                    match mode {
+                        0 => x,
+                        1 => x & l,
+                        _ => x | l,
+                    }
+                })
+            });
+            let small_fn = prop_oneof![2 => arb_tt(k), 1 => affine];
+            (vec(small_fn, outs), sizes, any::<u64>(), any::<bool>()).prop_map(move |(small, n, seed, top)| {
                 // k distinct positions among n: the k highest ones (variables >= 6 for n = 8) half
                 // of the time, otherwise chosen by a fixed shuffle of the seed
                 let mut pool: Vec<usize> = if top { ((n - k)..n).collect() } else { (0..n).collect() };
@@ -466,7 +480,7 @@ pub fn def() -> PropDef {
             name: "embed",
             rule: "metamorphic: 1..2 generated functions of k<=3 variables are embedded at generated positions into n<=8 variables (ESOP n<=5); the optimizers must return valid forms whose cost equals the exact optimum of the small functions (dummy variables never lower or raise the optimum). Reaches sizes (n = 5..8, variables >= 6, multi-word tables) where the exact DP itself is out of reach.",
             strategy: strategy_embed,
-            cases: (200, 6_000),
+            cases: (300, 6_000),
             exhaustive: None,
             exhaustive_note: "",
             run: run_embed,
